@@ -132,10 +132,13 @@ Fixpoint int_digits (a : Z) (prev : bool) (s : string) : option Z :=
   end.
 
 Definition py_int (s : string) : option Z :=
-  match rstrip (lstrip s) with
-  | String "+"%char r => int_digits 0 false r
-  | String "-"%char r => option_map Z.opp (int_digits 0 false r)
-  | r => int_digits 0 false r
+  let t := rstrip (lstrip s) in
+  match t with
+  | EmptyString => None
+  | String c r =>
+      if (c =? "+")%char then int_digits 0 false r
+      else if (c =? "-")%char then option_map Z.opp (int_digits 0 false r)
+      else int_digits 0 false t
   end.
 
 (** * Date units as text *)
@@ -354,25 +357,30 @@ Definition parse_simple (s : string) : res period :=
   Ok (u, i, 1).
 
 (** * helpers.period on a str *)
+
+(* the branch for "unit:start[:size]" texts, on [components = value.split(":")] *)
+Definition period_of_components (components : list string) : res period :=
+  match components with
+  | uname :: body :: rest =>
+      match unit_of_name uname with
+      | None | Some Eternity => Err EPeriod      (* not a unit, or eternity *)
+      | Some u =>
+          let* p := parse_simple body in
+          let* size :=
+            match rest with
+            | [] => Ok 1
+            | [sz] => match py_int sz with Some n => Ok n | None => Err EPeriod end
+            | _ => Err EPeriod                   (* more than 2 ":" *)
+            end in
+          (* "Reject ambiguous periods such as month:2014" *)
+          if unit_weight u <? unit_weight (p_unit p) then Err EPeriod
+          else Ok (u, p_start p, size)
+      end
+  | _ => Err EPeriod
+  end.
+
 Definition parse_period (s : string) : res period :=
   if (lower s =? unit_name Eternity)%string then Ok eternity_period
   else if is_instant_str s then parse_simple s
-  else if is_period_str s then
-    match split ":" s with
-    | uname :: body :: rest =>
-        match unit_of_name uname with
-        | None | Some Eternity => Err EPeriod
-        | Some u =>
-            let* p := parse_simple body in
-            let* size :=
-              match rest with
-              | [] => Ok 1
-              | [sz] => match py_int sz with Some n => Ok n | None => Err EPeriod end
-              | _ => Err EPeriod
-              end in
-            if unit_weight u <? unit_weight (p_unit p) then Err EPeriod
-            else Ok (u, p_start p, size)
-        end
-    | _ => Err EPeriod
-    end
+  else if is_period_str s then period_of_components (split ":" s)
   else Err EPeriod.
